@@ -43,4 +43,10 @@ impl RpcNetwork {
         let mut guard = self.clients.write();
         guard.remove(&addr);
     }
+
+    #[cfg(datacake_verif)]
+    /// Verification hook: the addresses a client is currently held for.
+    pub(crate) fn verif_addrs(&self) -> Vec<SocketAddr> {
+        self.clients.read().keys().copied().collect()
+    }
 }
